@@ -96,6 +96,18 @@ CHECKS = {
              'assumption that numpy elementwise kernels are position-independent. Bounds: <= 7 rows, <= 4 columns in the forking unit.',
         technique=TECH + '; non-interference by self-composition over solver-validated paths',
         design='3/C08'),
+    'C09': dict(
+        text='RESTRICTED sub-claim (threads not covered), solver verdict by inductive / two-step harnesses on the real code: rule '
+             'cache with a solver-decided symbolic dictionary and symbolic UNBOUNDED n, order, step ratios for all 16 method pairs '
+             '- warm rule == cold rule on every feasible path; step generator run from an arbitrary symbolic remembered state - '
+             'output and branch decisions contain no pre-state symbol; Derivative setter round trips with symbolic intermediate '
+             'values - configuration digest equals a fresh object; reuse sequences (other point, shared generator, n changed and '
+             'restored) - value, error estimate and final step are the same terms as a fresh object\'s.',
+        note='Trusted: z3; cache entries are modelled as functions of the arguments passed to _fd_matrix (token stub); '
+             'get_base_step uninterpreted in the generator obligation. Concurrent threads and long numeric histories are outside '
+             'the claim.',
+        technique=TECH + ' (QF_UFLIA/LRA), inductive state-carrier harnesses',
+        design='3/C09'),
     'C10': dict(
         text='Solver verdicts on the real step generators: Basic{Max,Min}StepGenerator with symbolic base step and ratio '
              '(closed form, order, strict geometric decrease, nothing for a zero base); Min/MaxStepGenerator with symbolic x and '
